@@ -642,7 +642,16 @@ class Interp:
         m = getattr(self, "s_" + type(st).__name__, None)
         if m is None:
             raise Unsupported("statement %s at %s:%d" % (type(st).__name__, fr.module.__name__, st.lineno))
-        m(st, fr)
+        try:
+            m(st, fr)
+        except Exception as e:
+            # where in the repository an exception first surfaced (used to tell a program that raises from an engine fault)
+            if getattr(e, "_pyvc_where", None) is None:
+                try:
+                    e._pyvc_where = (fr.module.__name__, st.lineno)
+                except Exception:
+                    pass
+            raise
 
     def s_Expr(self, st, fr):
         self.ev(st.value, fr)
